@@ -28,7 +28,7 @@ def Pc.fresh : Pc → Bool
 
 /-- the fork works on box `cur` and has not counted it yet -/
 def Pc.atBox : Pc → Bool
-  | .wLoop | .wAcq | .wChk | .wPull | .wLink | .wPut | .wRel | .bAcq | .bInc => true
+  | .wLoop | .wAcq | .wChk | .wPull | .wLink | .wPut | .wRel | .bAcq | .bInc | .bIncW => true
   | _ => false
 
 /-- the fork has counted box `cur` and not yet advanced -/
@@ -48,7 +48,7 @@ def Pc.notExc : Pc → Bool
 
 /-- the fork has settled what follows its box -/
 def Pc.seen : Pc → Bool
-  | .wRel | .bAcq | .bInc | .bCmp | .bGet | .bRel | .adv => true
+  | .wRel | .bAcq | .bInc | .bIncW | .bCmp | .bGet | .bRel | .adv => true
   | _ => false
 
 /-- shared counters agree (no box is half-way published) -/
